@@ -103,6 +103,7 @@ func inclRun(w *World) {
 		openAt[i] = t.Choose(nphases)
 	}
 	ok := true
+	exact := true
 	for ph := 0; ph < nphases && ok; ph++ {
 		for i, s := range subs {
 			if openAt[i] != ph {
@@ -131,6 +132,39 @@ func inclRun(w *World) {
 					}
 				}
 			})
+		}
+		if t.Flag(1, 5) {
+			// a phase with two writers at once (upsert-style updates of the same few ids): which order they take effect in
+			// is then the store's business - afterwards the model is re-read from the store, the exact event table is no
+			// longer applied, and the folded filtered stream must still be List with the same predicate
+			exact = false
+			for k := 0; k < 2; k++ {
+				var cops []wop
+				for j, n := 0, 1+t.Choose(2); j < n; j++ {
+					cops = append(cops, wop{Kind: opUpdate, ID: ids[t.Choose(2)], Val: mm{V: vals[t.Choose(3)]}, CreateIfAbs: !t.Flag(1, 4)})
+				}
+				cw := &writer{name: fmt.Sprintf("w%d%c", ph, 'a'+k), ops: cops}
+				w.Go(cw.name, false, func(t *Task) { cw.run(t, r) })
+			}
+			w.Run()
+			if w.Deadlocked || len(w.Unfinished(false)) > 0 {
+				if !w.truncated {
+					w.Violate("writer-stuck", "writers did not finish: "+strings.Join(w.Unfinished(true), ","), nil)
+				}
+				ok = false
+				break
+			}
+			settle := false
+			w.Go("settle", false, func(t *Task) { t.Settle("phase"); settle = true })
+			w.Run()
+			_ = settle
+			for _, id := range ids {
+				if g := r.apply(wop{Kind: opGet, ID: id}); g.Found {
+					m.items[id] = g.Msg
+				} else {
+					delete(m.items, id)
+				}
+			}
 		}
 		nw := 1 + t.Choose(3)
 		var ops []wop
@@ -234,7 +268,7 @@ func inclRun(w *World) {
 					map[string]any{"mode": mode})
 				ok = false
 			}
-			if s.cfg.Backpressure && ok && !cfg.EquivNoV {
+			if s.cfg.Backpressure && ok && !cfg.EquivNoV && exact {
 				if d := inclCompare(s); d != "" {
 					w.Violate("decision-table", fmt.Sprintf("%s [%s]: %s\n  predicate: %s\n  events: %s", s.name, s.cfg, d, s.tbl.describe(), eventsString(s.events)), nil)
 					ok = false
